@@ -39,6 +39,9 @@ let inv_gammaQ x a = lookup "inv_gammaQ" [x; a]
 let gammaLn x = lookup "gammaLn" [x]
 let inv_erf x = lookup "inv_erf" [x]
 let binom n k = lookup "binom" [float_of_int (int_of_z n); float_of_int (int_of_z k)]
+(* Find_Root as Inv_Erf calls it: the table is keyed by the bracket, the accuracy and the values of the function handed over at the ends of the
+   bracket and at 0 (erf(-10) - p, -p, erf(10) - p), so the arguments the model passes are compared with the ones the harness used *)
+let find_root (f : float -> float) xl xr acc = lookup "find_root" [xl; xr; acc; f (-10.0); f 0.0; f 10.0]
 
 let ok = function Ok v -> v | Exit -> raise (Model_out "EXIT") | OOB -> raise (Model_out "OOB") | Fuel -> raise (Model_out "FUEL")
 let pairs r = let n = integer r in List.init n (fun _ -> let lo = num r in let hi = num r in let fl = integer r in (lo, hi, fl))
@@ -84,6 +87,10 @@ let handler r =
       read_oracle r; put_f (ok (inv_cdf_poisson fops inv_gammaQ (zi n) c))
   | "quantile" -> let p = num r in let mu = num r in let s = num r in
       read_oracle r; put_f (ok (quantile_gauss fops inv_erf p mu s))
+  | "inverf" -> let p = num r in
+      read_oracle r; put_f (ok (inv_erf_fn fops find_root p))
+  | "quantilelib" -> let p = num r in let mu = num r in let s = num r in
+      read_oracle r; put_f (ok (quantile_gauss_lib fops find_root p mu s))
   | "lik" -> let s = num r in let n = integer r in let b = num r in
       put_f (log_likelihood_poisson fops s (zi n) b); put_f (likelihood_poisson fops s (zi n) b)
   | "lik0" -> let s = num r in let n = integer r in
